@@ -334,6 +334,7 @@ let step_preds : (string * (vconfig -> fstep -> bool)) list = [
   ("c14_datagram_ok", c14_datagram_ok);
   ("c14_segments_ok", c14_segments_ok);
   ("c08_deadline_ok", c08_deadline_ok);
+  ("c14_wire_ok", c14_wire_ok);
   ("c06_no_resend_acked", c06_no_resend_acked);
   ("c05_zero_window_strict", c05_zero_window_strict);
   ("c05_d16_class_neg", (fun c st -> not (c05_d16_class c st)));
@@ -347,6 +348,9 @@ let step_preds : (string * (vconfig -> fstep -> bool)) list = [
   ("c07_delayed_ok", c07_delayed_ok);
   ("c07_fires_ok", c07_fires_ok);
   ("c07_window_update_ok", c07_window_update_ok);
+  ("c07_reasm_change_ok", c07_reasm_change_ok);
+  ("c07_dist_ok", c07_dist_ok);
+  ("c07_pre_monitor_g", c07_pre_monitor_g);
   ("c18_nagle_ok", c18_nagle_ok);
   ("c18_pre_monitor", c18_pre_monitor);
   ("c17_synack_ok", c17_synack_ok);
@@ -356,6 +360,8 @@ let step_preds : (string * (vconfig -> fstep -> bool)) list = [
   ("c17_reset_ok", c17_reset_ok);
   ("c03_ready_closed_ok", c03_ready_closed_ok);
   ("c03_no_hang_ok", c03_no_hang_ok);
+  ("c11_emitted_ok", c11_emitted_ok);
+  ("c11_conn_types_ok", c11_conn_types_ok);
   (* classifiers of known classes: OK = the step is in the class *)
   ("c02_d2_class_neg", (fun c st -> not (c02_d2_class c st)));
   ("c02_d8_class_neg", (fun c st -> not (c02_d8_class c st)));
@@ -373,6 +379,8 @@ let trace_preds : (string * (vconfig -> fstep list -> bool)) list = [
   ("c06_joint_ok", c06_joint_ok);
   ("c06_rp_exit_ok", c06_rp_exit_ok);
   ("c07_idle_silent_partial", c07_idle_silent_partial);
+  ("c07_trigger_ok", c07_trigger_ok);
+  ("c08_fires_ok", c08_fires_ok);
   ("c17_fin_seq_ok", c17_fin_seq_ok);
   ("c17_peer_fin_ok", c17_peer_fin_ok);
   ("c17_reset_trace_ok", c17_reset_trace_ok);
